@@ -236,7 +236,12 @@ class BatchItemBase(futures.FutureBase):
             self.batch.flush()
 
     def to_str(self):
-        return "%06d.%s" % (self._id, str(self))
+        try:
+            return "%06d.%s" % (self._id, str(self))
+        except Exception:
+            # str() of a computed item includes repr() of its value or error, which may raise:
+            # describe the item without it (this text is only used by profiling / dumps)
+            return "%06d.%s" % (self._id, core_inspection.get_full_name(type(self)))
 
 
 class DebugBatchItem(BatchItemBase):
